@@ -161,8 +161,11 @@ pub fn eval_case(ops: &[Op], drv: Option<&mut Drv>, pools: &[Pool], rng: &mut Rn
             plan_rounds.push((mode.to_string(), None, 0));
         }
         if all_tags.len() >= 2 && rng.chance(50) {
-            plan_rounds.push(("par".to_string(), Some(usize::MAX), 1)); // two at once
-            plan_rounds.push(("par".to_string(), None, 0));
+            // two at once (from different groups of one stage when there is such a stage), at a
+            // random position among the rounds: what one panic leaves behind must not show later
+            let at = 2 * rng.below(plan_rounds.len() as u64 / 2 + 1) as usize;
+            plan_rounds.insert(at, ("par".to_string(), None, 0));
+            plan_rounds.insert(at, ("par".to_string(), Some(usize::MAX), 1));
         }
     }
     if cfg.partial_modes {
@@ -214,8 +217,15 @@ pub fn eval_case(ops: &[Op], drv: Option<&mut Drv>, pools: &[Pool], rng: &mut Rn
         let mut panicking: Vec<usize> = vec![];
         if let Some(t) = panic_tag {
             if t == usize::MAX {
+                let mut wide: Vec<&Vec<Vec<usize>>> = lay.stages.iter().chain(lay.inner.values().flat_map(|l| l.stages.iter())).filter(|st| st.len() > 1).collect();
                 let mut c = all_tags.clone();
                 rng.shuffle(&mut c);
+                if !wide.is_empty() && rng.chance(80) {
+                    rng.shuffle(&mut wide);
+                    let mut gs: Vec<usize> = wide[0].iter().map(|g| g[0]).collect();
+                    rng.shuffle(&mut gs);
+                    c = gs;
+                }
                 panicking = c.into_iter().take(2).collect();
             } else {
                 panicking.push(t);
@@ -228,6 +238,9 @@ pub fn eval_case(ops: &[Op], drv: Option<&mut Drv>, pools: &[Pool], rng: &mut Rn
         shared.take_log();
         shared.set_caller();
         shared.max_inside.store(0, SeqCst);
+        shared.round.fetch_add(1, SeqCst);
+        // `RunNow for Dispatcher` (dispatcher.rs) is another way to call `dispatch`
+        let via_run_now = rng.chance(30);
         let res = catch_unwind(AssertUnwindSafe(|| match mode.as_str() {
             "seq" => {
                 disp.dispatch_seq(&world);
@@ -237,6 +250,7 @@ pub fn eval_case(ops: &[Op], drv: Option<&mut Drv>, pools: &[Pool], rng: &mut Rn
             "paronly" => disp.dispatch_par(&world),
             "seqonly" => disp.dispatch_seq(&world),
             "tlonly" => disp.dispatch_thread_local(&world),
+            _ if via_run_now => RunNow::run_now(&mut disp, &world),
             _ => disp.dispatch(&world),
         }));
         let log = shared.take_log();
@@ -268,7 +282,8 @@ pub fn eval_case(ops: &[Op], drv: Option<&mut Drv>, pools: &[Pool], rng: &mut Rn
             }
             (Err(p), false) => {
                 let m = panic_message(p);
-                let ok = panicking.iter().any(|t| m == format!("harness panic (run) {}", t) || m == format!("harness panic (fetch) {}", t));
+                let rd = shared.round.load(SeqCst);
+                let ok = panicking.iter().any(|t| m == format!("harness panic (run) {} #{}", t, rd) || m == format!("harness panic (fetch) {} #{}", t, rd));
                 if !ok {
                     out.impl_v.push(("C14".into(), format!("the panic that reached the caller carries {:?}, not the payload of a panicking system ({:?})", m, panicking)));
                 }
@@ -299,6 +314,9 @@ pub fn eval_case(ops: &[Op], drv: Option<&mut Drv>, pools: &[Pool], rng: &mut Rn
                 let got = *fcount.get(t).unwrap_or(&0);
                 if got != *w {
                     out.impl_v.push(("C04".into(), format!("mode {}: system {} ran {} times, expected {}", mode, t, got, w)));
+                    if cfg.panics {
+                        out.impl_v.push(("C14".into(), format!("mode {}: in the dispatch after a caught panic system {} ran {} times, expected {}", mode, t, got, w)));
+                    }
                     if res.is_ok() && built.infos.get(t).map(|i| i.is_tl).unwrap_or(false) {
                         out.impl_v.push(("C12".into(), format!("mode {}: thread-local system {} ran {} times in one dispatch, expected {}", mode, t, got, w)));
                     }
